@@ -66,7 +66,7 @@ GenInitL == /\ \/ \E x \in ReqIdx : \E c \in LimCfgs(ReqWire(x)) : InitWith(c, R
             /\ trail = <<>> /\ eofs = <<>> /\ done = FALSE
 (* C08: responses for the client reader: token grammar x {GET, HEAD} x decompress, body limits relative to
    the body, gzip members complete and truncated in every framing *)
-CONSTANTS GzDrops, GzRespFrs
+CONSTANTS GzDrops, GzRespFrs, GzKeeps
 ClientBase == [BaseCfg EXCEPT !.mode = "client"]
 ClientBody(w) == LET ms == Msgs(OneShot([ClientBase EXCEPT !.maxBody = Huge], w, TRUE).ev) IN
                  IF ms = <<>> THEN 0 ELSE Len(ms[Len(ms)].body)
@@ -80,6 +80,7 @@ GzClientCfgs(g) ==
     \cup {[ClientBase EXCEPT !.decompress = TRUE, !.gz = GzTable, !.maxBody = Nat0(Len(GzTable[g].dec) + d)] : d \in LimDeltas}
 GenInitC == /\ \/ \E x \in RespIdx : \E c \in ClientCfgs(RespWire(x)) : InitWith(c, RespWire(x))
                \/ \E g \in GzIdx, fr \in GzRespFrs, dr \in GzDrops : \E c \in GzClientCfgs(g) : InitWith(c, GzRespWire(g, fr, dr))
+               \/ \E g \in GzIdx, fr \in GzRespFrs, k \in GzKeeps : \E c \in GzClientCfgs(g) : InitWith(c, GzRespWireK(g, fr, k))
             /\ trail = <<>> /\ eofs = <<>> /\ done = FALSE
 
 Compute == /\ ~done /\ done' = TRUE
